@@ -1,100 +1,93 @@
 (* C03 — pass prediction.  Statements only.  Model: model/M_Passes.v (hand-written executable model of
    the control logic of Orbital.get_next_passes over the one-minute samples; tied to orbital.py by the
    correspondence run of checks/c03.py, which feeds the implementation's own samples and recorded
-   brentq roots to the model inside Coq).
-   PROVED here: everything about the index/pairing/bracket logic, for every sample list of any length
-   and every oracle `root` meeting its contract.  NOT proved (oracles, validated by sampling in
-   checks/c03.py): scipy's brentq returns a point of the bracketing minute where the elevation is
-   within 1e-4 deg of the horizon; the parabolic iteration `_get_max_parab` ends within 0.01 deg of
+   _get_root results to the model inside Coq).
+   PROVED here: everything about the index/pairing/guard/bracket logic, for every sample list of any
+   length and every oracle `root` meeting its contract.  NOT proved (oracles, validated by sampling in
+   checks/c03.py): _get_root/scipy brentq returns a point of the bracketing minute where the elevation
+   is within 1e-4 deg of the horizon; the parabolic iteration `_get_max_parab` ends within 0.01 deg of
    the true maximum and strictly between rise and fall; "above the horizon" BETWEEN minute samples. *)
-From Coq Require Import List ZArith QArith Reals.
+From Coq Require Import List ZArith QArith Qminmax Reals.
 From PyOrb.model Require Import M_Passes.
 From PyOrb.proofs Require Import P_Passes.
 Import ListNotations.
 Open Scope Z_scope.
 
+(* rise < fall for every reported pass, for EVERY oracle (the guard `if not risemins < fallmins`) *)
+Theorem C03_rise_before_fall : forall xs root p,
+  In p (passes xs root) -> (p_rise p < p_fall p)%Q.
+Proof. exact pass_rise_lt_fall. Qed.
+Print Assumptions C03_rise_before_fall.
+
 (* each reported pass: rise guess strictly before fall guess, both roots inside their bracketing
-   minutes, rise <= fall *)
+   minutes, start <= rise < fall <= last sample *)
 Theorem C03_order : forall xs root p,
   root_ok xs root -> In p (passes xs root) ->
   (p_rg p < p_fg p)%nat /\ In (p_rg p) (zcs xs) /\ In (p_fg p) (zcs xs) /\
   (qn (p_rg p) <= p_rise p /\ p_rise p <= qn (S (p_rg p)))%Q /\
   (qn (p_fg p) <= p_fall p /\ p_fall p <= qn (S (p_fg p)))%Q /\
-  (p_rise p <= p_fall p)%Q.
+  (0 <= p_rise p /\ p_rise p < p_fall p /\ p_fall p <= qn (length xs - 1))%Q.
 Proof. exact pass_order. Qed.
 Print Assumptions C03_order.
 
-(* rise < fall when the roots are strictly inside their minutes (no sample exactly on the horizon) *)
-Theorem C03_order_strict : forall xs root p,
-  root_strict xs root -> In p (passes xs root) -> (p_rise p < p_fall p)%Q.
-Proof. exact pass_order_strict. Qed.
-Print Assumptions C03_order_strict.
-
 (* passes are reported in time order and are pairwise disjoint *)
 Theorem C03_disjoint : forall xs root l1 p1 l2 p2 l3,
-  nozero xs -> root_ok xs root -> passes xs root = l1 ++ p1 :: l2 ++ p2 :: l3 ->
+  root_ok xs root -> passes xs root = l1 ++ p1 :: l2 ++ p2 :: l3 ->
   (p_fg p1 < p_rg p2)%nat /\ (p_fall p1 <= p_rise p2)%Q.
 Proof. exact passes_disjoint. Qed.
 Print Assumptions C03_disjoint.
 
-Theorem C03_disjoint_strict : forall xs root l1 p1 l2 p2 l3,
-  nozero xs -> root_strict xs root -> passes xs root = l1 ++ p1 :: l2 ++ p2 :: l3 ->
-  (p_fall p1 < p_rise p2)%Q.
-Proof. exact passes_disjoint_strict. Qed.
-Print Assumptions C03_disjoint_strict.
-
-(* every minute sample between the rise bracket and the fall bracket is not below the horizon
-   (above it when no sample is exactly on it); the samples just outside are below *)
+(* every minute sample between the rise bracket and the fall bracket is not below the horizon; the
+   samples just outside are below it *)
 Theorem C03_sound_samples : forall xs root p,
   In p (passes xs root) ->
   (forall i, (p_rg p < i <= p_fg p)%nat -> 0 <= sample xs i) /\
-  (nozero xs -> forall i, (p_rg p < i <= p_fg p)%nat -> 0 < sample xs i) /\
-  sample xs (p_rg p) < 0 /\ (nozero xs -> sample xs (S (p_fg p)) < 0).
+  sample xs (p_rg p) < 0 /\ sample xs (S (p_fg p)) < 0.
 Proof. exact pass_samples. Qed.
 Print Assumptions C03_sound_samples.
 
 Theorem C03_sound_between : forall xs root p,
-  root_ok xs root -> nozero xs -> In p (passes xs root) ->
-  forall i, (p_rise p < qn i /\ qn i < p_fall p)%Q -> 0 < sample xs i.
+  root_ok xs root -> In p (passes xs root) ->
+  forall i, (p_rise p < qn i /\ qn i < p_fall p)%Q -> 0 <= sample xs i.
 Proof. exact pass_samples_between. Qed.
 Print Assumptions C03_sound_between.
 
-(* completeness, discrete core: a maximal run r+1..b of positive samples preceded and followed by a
-   negative sample inside the window yields exactly one reported pass, with these brackets *)
+(* completeness, discrete core: a maximal run r+1..b of non-negative samples preceded and followed by
+   a negative sample inside the window yields exactly one reported pass, with these brackets,
+   provided the two roots are distinct (automatic when the run has two samples or more) *)
 Theorem C03_complete : forall xs root r b,
+  root_ok xs root -> root_sep xs root ->
   (r < b)%nat -> (S b < length xs)%nat -> sample xs r < 0 ->
-  (forall i, (r < i <= b)%nat -> 0 < sample xs i) -> sample xs (S b) < 0 ->
+  (forall i, (r < i <= b)%nat -> 0 <= sample xs i) -> sample xs (S b) < 0 ->
   exists p, In p (passes xs root) /\ p_rg p = r /\ p_fg p = b /\
     p_rise p = root r /\ p_fall p = root b /\
     (forall q, In q (passes xs root) -> p_fg q = b -> q = p).
-Proof. exact run_pass. Qed.
+Proof. exact run_pass_sep. Qed.
 Print Assumptions C03_complete.
 
-(* completeness for an elevation function of real time (minutes): an above-horizon interval (t1,t2)
-   longer than one minute, beginning after the start and ending at least one minute before the last
-   sample, flanked by a minute below the horizon on each side, with crossings off the sample grid,
-   is reported once, with rise/fall roots taken in the minutes that contain t1 and t2 *)
+(* completeness for an elevation function of real time (minutes): an interval [t1,t2] longer than one
+   minute on which the satellite is not below the horizon, beginning after the start and ending more
+   than one minute before the end (last sample = minute len-1), flanked by a minute below the horizon
+   on each side, is reported exactly once, with rise/fall roots taken in the minutes containing t1, t2 *)
 Theorem C03_complete_continuous : forall (el : R -> R) (xs : list Z) (root : nat -> Q),
-  (forall i, (i < length xs)%nat ->
-     ((0 < sample xs i)%Z <-> (0 < el (IZR (Z.of_nat i)))%R) /\
-     ((sample xs i < 0)%Z <-> (el (IZR (Z.of_nat i)) < 0)%R)) ->
+  (forall i, (i < length xs)%nat -> ((sample xs i < 0)%Z <-> (el (IZR (Z.of_nat i)) < 0)%R)) ->
+  root_ok xs root -> root_sep xs root ->
   forall t1 t2 : R,
-  (0 < t1)%R -> (t1 + 1 < t2)%R -> (t2 <= IZR (Z.of_nat (length xs)) - 1)%R ->
-  (forall t, (t1 < t < t2)%R -> (0 < el t)%R) ->
+  (0 < t1)%R -> (t1 + 1 < t2)%R -> (t2 < IZR (Z.of_nat (length xs)) - 1)%R ->
+  (forall t, (t1 <= t <= t2)%R -> (0 <= el t)%R) ->
   (forall t, (t1 - 1 <= t < t1)%R -> (el t < 0)%R) ->
   (forall t, (t2 < t <= t2 + 1)%R -> (el t < 0)%R) ->
-  (forall k : Z, IZR k <> t1) -> (forall k : Z, IZR k <> t2) ->
   exists p, In p (passes xs root) /\
-    (IZR (Z.of_nat (p_rg p)) < t1 < IZR (Z.of_nat (p_rg p)) + 1)%R /\
-    (IZR (Z.of_nat (p_fg p)) < t2 < IZR (Z.of_nat (p_fg p)) + 1)%R /\
+    (IZR (Z.of_nat (p_rg p)) < t1 <= IZR (Z.of_nat (p_rg p)) + 1)%R /\
+    (IZR (Z.of_nat (p_fg p)) <= t2 < IZR (Z.of_nat (p_fg p)) + 1)%R /\
     p_rise p = root (p_rg p) /\ p_fall p = root (p_fg p) /\
     (forall q, In q (passes xs root) -> p_fg q = p_fg p -> q = p).
 Proof. exact interval_reported. Qed.
 Print Assumptions C03_complete_continuous.
 
 (* culmination bracket: np.argmax never sees an empty slice; the slice covers the in-pass samples;
-   the bracket handed to _get_max_parab is [max(rise, middle-1), min(fall, middle+1)], non-empty and
-   inside [rise, fall] *)
+   the bracket handed to _get_max_parab is [max(rise, middle-1), min(fall, middle+1)], of positive
+   length and inside [rise, fall] *)
 Theorem C03_bracket : forall xs root p,
   root_ok xs root -> In p (passes xs root) ->
   p_ok p = true /\
@@ -104,23 +97,23 @@ Theorem C03_bracket : forall xs root p,
   (forall i, (p_istart p <= i < p_middle p)%nat -> sample xs i < sample xs (p_middle p)) /\
   (p_lo p == Qmax (p_rise p) (inject_Z (Z.of_nat (p_middle p) - 1)))%Q /\
   (p_hi p == Qmin (p_fall p) (inject_Z (Z.of_nat (p_middle p) + 1)))%Q /\
-  (p_rise p <= p_lo p /\ p_lo p <= p_hi p /\ p_hi p <= p_fall p)%Q.
+  (p_rise p <= p_lo p /\ p_lo p < p_hi p /\ p_hi p <= p_fall p)%Q.
 Proof. exact pass_bracket. Qed.
 Print Assumptions C03_bracket.
 
-(* ... and with no sample on the horizon the best sample is an in-pass sample inside the bracket *)
+(* ... the best sample is an in-pass sample and lies inside the bracket *)
 Theorem C03_bracket_best_sample : forall xs root p,
-  root_ok xs root -> nozero xs -> In p (passes xs root) ->
-  (p_rg p < p_middle p <= p_fg p)%nat /\ 0 < sample xs (p_middle p) /\
+  root_ok xs root -> In p (passes xs root) ->
+  (p_rg p < p_middle p <= p_fg p)%nat /\ 0 <= sample xs (p_middle p) /\
   (forall i, (p_rg p < i <= p_fg p)%nat -> sample xs i <= sample xs (p_middle p)) /\
   (p_lo p <= qn (p_middle p) /\ qn (p_middle p) <= p_hi p)%Q.
-Proof. exact pass_bracket_nozero. Qed.
+Proof. exact pass_bracket_best. Qed.
 Print Assumptions C03_bracket_best_sample.
 
 (* if the elevation is strictly unimodal over the pass, its maximiser is within one minute of the
    best sample, i.e. inside the [middle-1, middle+1] part of the bracket *)
 Theorem C03_bracket_unimodal : forall (el : R -> R) (xs : list Z) (root : nat -> Q),
-  nozero xs -> root_ok xs root ->
+  root_ok xs root ->
   (forall i j, (i < length xs)%nat -> (j < length xs)%nat ->
      (sample xs i <= sample xs j)%Z -> (el (IZR (Z.of_nat i)) <= el (IZR (Z.of_nat j)))%R) ->
   forall p, In p (passes xs root) ->
@@ -132,31 +125,40 @@ Theorem C03_bracket_unimodal : forall (el : R -> R) (xs : list Z) (root : nat ->
 Proof. exact culmination_in_bracket. Qed.
 Print Assumptions C03_bracket_unimodal.
 
-(* REFUTED corners (a minute sample exactly on the horizon; both replayed on the implementation by
-   checks/c03.py with horizon := elevation of a minute sample): *)
-Theorem C03_zero_sample_empty_pass_refuted :
-  exists xs root, root_ok xs root /\
-    exists p1 p2, passes xs root = [p1; p2] /\ (p_rise p1 == p_fall p1)%Q /\ (p_lo p1 == p_hi p1)%Q /\
+(* corners: passes cut by the window edges are not reported (the property allows it); a sample exactly
+   on the horizon counts as above it: one pass, once; a single sample touching the horizon with both
+   roots on it is not a pass *)
+Theorem C03_window_edges_and_zero_samples : forall root,
+  passes [3; 2; -1; -2] root = [] /\ passes [-3; -2; 1; 2] root = [] /\
+  map (fun p => (p_rg p, p_fg p)) (passes [-2; 0; 3; 5; -1] (fun g => (inject_Z (Z.of_nat g) + (1 # 2))%Q)) = [(0, 3)]%nat /\
+  map (fun p => (p_rg p, p_fg p)) (passes [-1; 2; 0; -3] (fun g => (inject_Z (Z.of_nat g) + (1 # 2))%Q)) = [(0, 2)]%nat /\
+  passes [-1; 0; -1] (fun _ => 1%Q) = [].
+Proof.
+  intros root. split; [apply cut_by_start_dropped|]. split; [apply cut_by_end_dropped | exact zero_sample_now].
+Qed.
+Print Assumptions C03_window_edges_and_zero_samples.
+
+(* why fixes b1a947a / f25c902 were needed: the logic BEFORE them (three-valued np.sign, no guard;
+   M_Passes.passes_before_fix) reported a zero-length pass, resp. the same pass twice, when a minute
+   sample was exactly on the horizon.  checks/c03.py keeps both inputs as regression cases. *)
+Theorem C03_zero_sample_empty_pass_before_fix :
+  exists xs root, root_ok3 xs root /\
+    exists p1 p2, passes_before_fix xs root = [p1; p2] /\ (p_rise p1 == p_fall p1)%Q /\ (p_lo p1 == p_hi p1)%Q /\
                   (p_rise p2 == p_rise p1)%Q /\ (p_rise p2 < p_fall p2)%Q.
-Proof. exact zero_sample_empty_pass. Qed.
-Print Assumptions C03_zero_sample_empty_pass_refuted.
+Proof. exact zero_sample_empty_pass_before_fix. Qed.
+Print Assumptions C03_zero_sample_empty_pass_before_fix.
 
-Theorem C03_zero_sample_duplicate_refuted :
-  exists xs root, root_ok xs root /\
-    exists p1 p2, passes xs root = [p1; p2] /\ (p_rise p2 < p_fall p1)%Q /\
+Theorem C03_zero_sample_duplicate_before_fix :
+  exists xs root, root_ok3 xs root /\
+    exists p1 p2, passes_before_fix xs root = [p1; p2] /\ (p_rise p2 < p_fall p1)%Q /\
                   (p_rise p1 == p_rise p2)%Q /\ (p_fall p1 == p_fall p2)%Q /\ p_fg p1 <> p_fg p2.
-Proof. exact zero_sample_duplicate_pass. Qed.
-Print Assumptions C03_zero_sample_duplicate_refuted.
+Proof. exact zero_sample_duplicate_pass_before_fix. Qed.
+Print Assumptions C03_zero_sample_duplicate_before_fix.
 
-(* passes cut by the window edges are not reported (the property allows it) *)
-Theorem C03_window_edges : forall root,
-  passes [3; 2; -1; -2] root = [] /\ passes [-3; -2; 1; 2] root = [].
-Proof. intros root. split; [apply cut_by_start_dropped | apply cut_by_end_dropped]. Qed.
-Print Assumptions C03_window_edges.
-
-(* non-vacuity: a 13-minute window with a pass cut by the start (dropped) and two full passes;
-   hypotheses nozero / root_strict hold and the model reports (rise guess, fall guess, middle) *)
+(* non-vacuity: a 12-minute window with a pass cut by the start (dropped), a full pass, and a pass whose
+   only sample is exactly on the horizon; the oracle hypotheses hold and the model reports
+   (rise guess, fall guess, middle) *)
 Example C03_inhabited :
-  nozero ex_xs /\ root_strict ex_xs ex_root /\
-  map (fun p => (p_rg p, p_fg p, p_middle p)) (passes ex_xs ex_root) = [(2, 6, 5); (8, 10, 10)]%nat.
-Proof. split; [exact ex_nozero|]. split; [exact ex_root_strict | exact ex_passes]. Qed.
+  root_ok ex_xs ex_root /\ root_sep ex_xs ex_root /\
+  map (fun p => (p_rg p, p_fg p, p_middle p)) (passes ex_xs ex_root) = [(2, 6, 5); (8, 9, 9)]%nat.
+Proof. split; [apply ex_root_ok|]. split; [apply ex_root_ok | exact ex_passes]. Qed.
